@@ -18,6 +18,7 @@ import (
 	"github.com/ucan-wg/go-ucan/pkg/command"
 	"github.com/ucan-wg/go-ucan/pkg/meta"
 	"github.com/ucan-wg/go-ucan/pkg/policy"
+	"github.com/ucan-wg/go-ucan/pkg/policy/limits"
 	"github.com/ucan-wg/go-ucan/token/internal/nonce"
 	"github.com/ucan-wg/go-ucan/token/internal/parse"
 )
@@ -175,6 +176,20 @@ func (t *Token) validate() error {
 	if len(t.nonce) < 12 {
 		errs = errors.Join(errs, fmt.Errorf("token nonce too small"))
 	}
+
+	// A token that is accepted here must be decodable once sealed: the command has to respect the
+	// command grammar and the timestamps have to fit the 53-bit integers of the wire format.
+	if !command.IsValid(t.command.String()) {
+		errs = errors.Join(errs, fmt.Errorf("invalid command: %s", t.command))
+	}
+
+	checkTime := func(ti *time.Time, fieldname string) {
+		if ti != nil && (ti.Unix() > limits.MaxInt53 || ti.Unix() < limits.MinInt53) {
+			errs = errors.Join(errs, fmt.Errorf("%s exceeds safe integer bounds: %d", fieldname, ti.Unix()))
+		}
+	}
+	checkTime(t.notBefore, "NotBefore")
+	checkTime(t.expiration, "Expiration")
 
 	return errs
 }
